@@ -6,7 +6,7 @@ import ast
 from vlib.anchoring import Site, Taint, find_sites
 from vlib.core import AnalysisError, Report
 from vlib.norm import Expander
-from vlib.srcindex import SourceIndex, attr_chain, const_str, unparse
+from vlib.srcindex import SourceIndex, attr_chain, const_str, unparse, walk_no_nested
 
 EXPLANATION = (
 	'Decides the mechanism the property names: no decision in the pipeline may depend on a prefix/suffix/substring/length relation of user-chosen identifiers. '
@@ -143,6 +143,7 @@ def run(rep: Report, tier: str) -> None:
 	rule_scope_visibility(rep, idx)
 	rule_member_lookup_scope(rep, idx)
 	rule_import_alias(rep, idx)
+	rule_relatives_by_identity(rep, idx, tier)
 	rule_identifier_classes(rep, idx)
 	rep.extra_coverage['tainted_sites'] = len(tainted_sites)
 	rep.extra_coverage['tainted_by_kind'] = {k: sum(1 for s in tainted_sites if s.kind == k) for k in sorted({s.kind for s in tainted_sites})}
@@ -673,3 +674,48 @@ def rule_import_alias(rep: Report, idx: SourceIndex) -> None:
 			r.ok(key, (m.relpath, c_.lineno))
 		else:
 			r.skip(key, (m.relpath, c_.lineno), f'`{unparse(name_e)[:60]}`: member `{first}` not classified')
+
+
+def rule_relatives_by_identity(rep: Report, idx: SourceIndex, tier: str) -> None:
+	"""Whether a node IS the `prop` / `receiver` / n-th child of its parent is a fact about positions in the tree: `parent.prop == node` (node equality is
+	module path + full path). Deciding it by comparing the SPELLING of the node with the spelling of (a part of) its relative — `DSN.right(parent.domain_name, 1)
+	== var.domain_name` — is true for every node spelled like the member: in `size.size` the receiver is taken for the property as well, and a closure
+	that reads `size.size` no longer captures `size`. Renaming the variable changes the output."""
+	from vlib.match import expand_use
+	r = rep.rule('C08/relatives-compared-by-identity', 'no equality test compares a name string of a node with a name string of its own parent / child / sibling (reached from the same object through .parent, .prop, .receiver, ...): such roles are decided by node identity', floor=1)
+	RELATIVES = {'parent', 'prop', 'receiver', 'symbol', 'value', 'var_type', 'calls', 'key', 'left', 'right'}
+	n_cmp = n_bad = 0
+
+	def objects(e: ast.AST) -> list[tuple[str, ...]]:
+		"""attribute paths (root, attr, attr, ...) of the objects whose name strings occur in e; the last attribute (the name attribute itself) is dropped"""
+		out = []
+		for x in ast.walk(e):
+			if isinstance(x, ast.Attribute) and x.attr in IDENT_ATTRS:
+				chain = []
+				y = x.value
+				while isinstance(y, ast.Attribute):
+					chain.append(y.attr)
+					y = y.value
+				if isinstance(y, ast.Name):
+					out.append((y.id, *reversed(chain)))
+		return out
+	for rel in files_for(idx, tier):
+		m = idx.mod(rel)
+		for q, f in m.functions.items():
+			if '#' in q:
+				continue
+			for c_ in [n for n in walk_no_nested(f.node) if isinstance(n, ast.Compare)]:
+				if len(c_.ops) != 1 or not isinstance(c_.ops[0], (ast.Eq, ast.NotEq)):
+					continue
+				l, rr = expand_use(f.node, c_.left), expand_use(f.node, c_.comparators[0])
+				lo, ro = objects(l), objects(rr)
+				if not lo or not ro:
+					continue
+				n_cmp += 1
+				related = [(a, b) for a in lo for b in ro if a != b and a[0] == b[0] and (a[:len(b)] == b or b[:len(a)] == a) and set((a[len(b):] or b[len(a):])) <= RELATIVES]
+				if related:
+					n_bad += 1
+					a, b = related[0]
+					r.violate(f'{q}:{unparse(c_)[:50]}', (rel, c_.lineno), f'{q} compares the name of `{".".join(a)}` with the name of `{".".join(b)}` — a node and its own relative — by spelling (`{unparse(c_)[:90]}`): the test also holds for an unrelated node that is merely spelled like the member (`size.size`, `item.item`), so which variables a closure captures, or which role a node gets, depends on the names the user chose', unparse(c_))
+	if n_bad == 0:
+		r.ok('name-equalities', None, message=f'{n_cmp} equality tests between name strings of nodes; none relates a node to its own relative')
